@@ -1,6 +1,7 @@
 (* C16 — Flags: bit meanings, selection by name and derivation.  Only statements here. *)
 From Coq Require Import ZArith List Bool String.
 From KV Require Import Base.Sx Base.Str Gen.Generated Model.Flags Proofs.FlagsP.
+From KV Require Model.Select Proofs.SelectP Props.C02.
 Import ListNotations.
 Open Scope Z_scope.
 
@@ -66,3 +67,19 @@ Proof.
   intros i. rewrite raw_flags_v4_spec. exact (raw_flags_v4_other_bits s l c i).
 Qed.
 Print Assumptions C16_raw_flags_v4.
+
+(* Changing the flag or weight selection never changes the time, frequency and product selection: a select()
+   call that carries only flags= / weights= leaves the three masks of EVERY reachable selection state alone
+   (re-export of C02's theorem about the model of DataSet.select; visibilities and raw flags are functions of
+   the masks and the stored arrays only, cf. C01). *)
+Theorem C16_flag_select_changes_nothing_else : forall o s kw,
+  KV.Proofs.SelectP.reachable o s -> NoDup (KV.Model.Select.keys kw) -> kw <> [] ->
+  (forall k, In k (KV.Model.Select.keys kw) -> k = "flags"%string \/ k = "weights"%string) ->
+  exists s', KV.Model.Select.select o s kw = KV.Model.Select.Ok s'
+             /\ KV.Model.Select.masks_of s' = KV.Model.Select.masks_of s.
+Proof.
+  intros o s kw Hr Nk Hne Hk.
+  destruct (proj1 (KV.Props.C02.C02_flags_weights_never_change_masks o s kw Hr Nk) Hne Hk) as (s' & A & B & _).
+  exists s'. split; assumption.
+Qed.
+Print Assumptions C16_flag_select_changes_nothing_else.
